@@ -13,6 +13,8 @@ import (
 	"encoding/json"
 	"fmt"
 	"os"
+	"runtime"
+	"runtime/pprof"
 	"sort"
 	"strings"
 	"time"
@@ -323,6 +325,11 @@ func runWithReruns(cs Case) caseOut {
 func main() {
 	if evid.IsWorker() {
 		sysx.HangLimit = 10 * time.Second
+		if v := os.Getenv("C01_PROCS"); v != "" {
+			n := 0
+			fmt.Sscan(v, &n)
+			runtime.GOMAXPROCS(n)
+		}
 		evid.ServeWorker(func(raw json.RawMessage) any {
 			var j job
 			if err := json.Unmarshal(raw, &j); err != nil {
@@ -348,6 +355,26 @@ func main() {
 	if os.Getenv("C01_PROBE") != "" {
 		// debugging aid: one small word batch and a few placement cases per configuration, in-process
 		sysx.HangLimit = 5 * time.Second
+		if f := os.Getenv("C01_PROF"); f != "" {
+			fh, _ := os.Create(f)
+			pprof.StartCPUProfile(fh) //nolint:errcheck
+			defer pprof.StopCPUProfile()
+			runtime.GOMAXPROCS(4)
+			cfg := configs()[13]
+			t0 := time.Now()
+			for b := 0; b < 10; b++ {
+				runCase(seqCase(cfg, 7, 4, b*120, b*120+120, b, false))
+			}
+			fmt.Println("10 batches of 120 words:", time.Since(t0), cfg)
+			t0 = time.Now()
+			pp := readerPlacements(3)
+			for _, a := range pp {
+				runCase(placeCase(cfg, 0, a))
+			}
+			fmt.Println(len(pp), "placement cases:", time.Since(t0))
+			pprof.StopCPUProfile()
+			os.Exit(0)
+		}
 		p1 := readerPlacements(4)
 		for ci, cfg := range configs() {
 			if f := os.Getenv("C01_ONLY"); f != "" && !strings.Contains(cfg.String(), f) {
